@@ -18,14 +18,14 @@ ASSUMPTIONS = [
     "radius/threshold within rel. 1e-9 of each other accept both decisions",
     "which child keeps the old arm when it lies on a shared face is not prescribed: exactly one child must hold it",
 ]
-FLOOR = {"zoom_pulls_checked": {"quick": 40000, "thorough": 320000},
-         "refinements_seen": {"quick": 1500, "thorough": 12000},
-         "leaves_checked_for_coverage": {"quick": 300000, "thorough": 2400000}}
+FLOOR = {"zoom_pulls_checked": {"quick": 100000, "thorough": 320000},
+         "refinements_seen": {"quick": 3750, "thorough": 12000},
+         "leaves_checked_for_coverage": {"quick": 750000, "thorough": 2400000}}
 WALL = {"quick": 1200, "thorough": 4 * 3600}
 
 
 def gen_cases(rng, tier, count=None):
-    count = count or (360 if tier == "quick" else 6000)
+    count = count or (1000 if tier == "quick" else 8000)
     out = []
     for i in range(6 if tier == "quick" else 40):
         # long runs: phase i lasts 2^i rounds, so only long horizons reach the later phase ends (2046 .. 16382)
